@@ -168,12 +168,13 @@ static Bytes gen_dec_input(Rng &rng, int tier, int flavour, std::string *desc) {
   }
 }
 
-struct DecOracle { bz::DecResult d; bool uncertain = false; std::string why; };
+struct DecOracle { bz::DecResult d; bool uncertain = false; std::string why; bool lib_rejects = false; };
 static DecOracle dec_oracle(const Bytes &z) {
   DecOracle o;
   o.d = bz::refdec(z);
   if (o.d.verdict == bz::V_UNCERTAIN) { o.uncertain = true; o.why = o.d.reason; return o; }
   bz::LibResult l = bz::libbz2_decode(z);
+  o.lib_rejects = !l.ok;
   if (o.d.verdict == bz::V_VALID) {
     if (l.ok && l.out != o.d.out) { o.uncertain = true; o.why = "refdec and libbz2 decode to different bytes"; }
     if (!l.ok && o.d.trailing == 0) { o.uncertain = true; o.why = "refdec accepts, libbz2 rejects"; }
@@ -210,7 +211,7 @@ static DecRun run_dec(const RunCfg &cfg, const Bytes &z, size_t out_hint, Ctx &c
 struct C05 : Driver {
   const char *prop() const override { return "C05"; }
   const char *level() const override { return "exploration"; }
-  const char *variants(int) const override { return "plain ndebug/4"; }   // assertion-free build = the shipped semantics
+  const char *variants(int) const override { return "plain ndebug/4"; }   // ndebug: assertion-free build = the shipped semantics; preempt: decision points inside unsynchronised code too
   uint64_t ncases(int tier) const override { return tier ? 500000 : 40000; }
   std::string rule() const override {
     return "case = one byte string (structured streams from a generator that exposes every degree of freedom, with one planted defect per field kind: delta step leaving 1-20 upwards/downwards/at the start value, selector = table count, "
@@ -241,6 +242,9 @@ struct C05 : Driver {
       if (!x.r.exited(0)) continue;       // the one-sided oracle only speaks about accepted inputs
       if (o.d.verdict == bz::V_INVALID)
         return Verdict::fail("accepted-invalid", "lbzip2 -d exited 0 on an input the reference decoder rejects (" + o.d.reason + "); " + cfg.brief(), "accepted-invalid:" + o.d.reason);
+      // documented exceptions: lbzip2 is allowed to reject them; accepting is fine only where bzip2 1.0.x (libbz2 1.0.8) accepts too
+      if (o.d.verdict == bz::V_EXCEPTION && o.lib_rejects)
+        return Verdict::fail("accepted-invalid", "lbzip2 -d exited 0 on an input that libbz2 1.0.8 rejects (" + o.d.reason + "); " + cfg.brief(), "accepted-invalid:" + o.d.reason);
       if (x.out != o.d.out && !(x.operand && !x.out_file_exists))
         return Verdict::fail("wrong-bytes", "lbzip2 -d exited 0 but wrote " + std::to_string(x.out.size()) + " bytes that differ from the reference decoding (" + std::to_string(o.d.out.size()) + " bytes); " + cfg.brief());
     }
@@ -260,7 +264,7 @@ static Registrar r05(new C05);
 struct C06 : Driver {
   const char *prop() const override { return "C06"; }
   const char *level() const override { return "exploration"; }
-  const char *variants(int) const override { return "plain ndebug/4"; }   // assertion-free build = the shipped semantics
+  const char *variants(int) const override { return "plain ndebug/4"; }   // ndebug: assertion-free build = the shipped semantics; preempt: decision points inside unsynchronised code too
   uint64_t ncases(int tier) const override { return tier ? 300000 : 24000; }
   std::string rule() const override {
     return "case = one valid file: generated streams varying every legal degree of freedom (2-6 arbitrary complete tables incl. 20-bit codes, arbitrary selector sequences, surplus selectors up to 32767, zig-zag delta paths touching 1 and 20, "
@@ -317,7 +321,7 @@ static Registrar r06(new C06);
 struct C07 : Driver {
   const char *prop() const override { return "C07"; }
   const char *level() const override { return "fault_enumeration"; }
-  const char *variants(int) const override { return "plain ndebug/4"; }   // assertion-free build = the shipped semantics
+  const char *variants(int) const override { return "plain ndebug/4"; }   // ndebug: assertion-free build = the shipped semantics; preempt: decision points inside unsynchronised code too
   uint64_t ncases(int tier) const override { return tier ? 150000 : 12000; }
   bool exhaustive() const override { return true; }
   std::string exhaustive_note() const override { return "every truncation length 0..len-1 of each listed small valid multi-block/multi-stream file (about 1 in 125 cases: ~96 files quick, ~1000 thorough), each under 3 schedules x 2 input block sizes; corruptions and configurations are sampled"; }
@@ -405,7 +409,7 @@ static Registrar r07(new C07);
 struct C10 : Driver {
   const char *prop() const override { return "C10"; }
   const char *level() const override { return "exploration"; }
-  const char *variants(int) const override { return "plain ndebug/4"; }   // assertion-free build = the shipped semantics
+  const char *variants(int) const override { return "plain ndebug/4 preempt/4"; }   // ndebug: assertion-free build = the shipped semantics; preempt: decision points inside unsynchronised code too
   uint64_t ncases(int tier) const override { return tier ? 800000 : 60000; }
   std::string rule() const override {
     return "case = a file with planted copies of the 48-bit block-header pattern: (0) pattern + 32 arbitrary bits spelled as legal symbols inside Huffman-coded data (flat 8-bit tables make every byte string a legal symbol sequence), "
